@@ -35,10 +35,16 @@ MANIFEST = dict(
          "C18_scan_eq_play_checked), termination of the scan (C18_scan_terminates), the per-row accounting identity (C18_row_accounting). "
          "The model is tied to src/scan.c, src/player.c, src/effects.c on every run by a differential correspondence on modules "
          "written in all four formats and loaded by the real loaders, and a direct oracle on the real library; the driver also evaluates "
-         "the theorem's hypotheses (modWFb, seqHypB) and its conclusion (rowRecs(Play.run) = Scan trace) on every generated module / sequence.",
+         "the theorem's hypotheses (modWFb, seqHypB) and its conclusion (rowRecs(Play.run) = Scan trace) on every generated module / sequence. "
+         "IT row delay (SEx, the IT pattern delay: the row is entered 1+x times at the running speed) is modelled in both interpreters "
+         "(C18_row_accounting_rowdelay: the scan counts it at the running speed and tempo) and covered by the correspondence and the oracle, "
+         "but is outside ModWF: the simulation theorems do not cover modules containing it. "
+         "The generators combine speed / tempo changes with pattern / row delays inside one pattern (EEx after Fxx, S3M SEx after Axx, IT S6x and SEx "
+         "after Axx / Txx); the oracle also runs a reposition tour on multi-sequence modules (one running player, xmp_set_position from the middle of one "
+         "sequence to the entry point of another and back: rendered time and row trace of the target must equal its reported duration / its fresh run).",
     note="Trusted: Lean kernel (axioms propext/Classical.choice/Quot.sound only), the hand-written model XmpModel/LinFlow.lean, "
          "the four Python module writers, the harness and the differ. Modelled-not-verified: everything in scan.c/player.c outside the "
-         "vocabulary (pattern breaks, pattern loops, row delay, line jumps, global volume, ST2.6/FAR/ULT tempo, QUIRK_PROTRACK delay+break), "
+         "vocabulary (pattern breaks, pattern loops, IT tempo slides T0x/T1x, line jumps, global volume, ST2.6/FAR/ULT tempo, QUIRK_PROTRACK delay+break), "
          "IEEE rounding of the double sums (compared with tolerance: 2 us on sums, 1 ms on int-truncated values), the mixer. "
          "Outside the proved class: marker formats with a restart position and an end marker (model's next_order and scan then restart at "
          "different orders below a secondary entry point; no core loader produces it). "
@@ -122,6 +128,11 @@ def gen_module(rng, fmt, big=False):
                 else:
                     j = rng.randint(0, 255)
                 rows.append(("j", j, c))
+        if fmt == "it":
+            # IT "pattern delay for x rows" (SEx, FX_IT_ROWDELAY) instead of some of the S6x delays
+            rows = [("r", ev[1], ev[2]) if (ev and ev[0] == "d" and rng.random() < 0.5) else ev for ev in rows]
+        if nr >= 4 and rng.random() < 0.5:
+            add_combo(rng, fmt, rows, chn)
         pats.append(rows)
     if fmt == "mod":
         spd, bpm = 6, 125
@@ -134,6 +145,68 @@ def gen_module(rng, fmt, big=False):
         rst = 0
     return dict(fmt=fmt, chn=chn, orders=orders, pats=pats, rst=rst, spd=spd, bpm=bpm,
                 magic=rng.choice(["M.K.", "M.K.", "M!K!"]) if (fmt == "mod" and chn == 4) else None)
+
+
+def add_combo(rng, fmt, rows, chn):
+    """Speed / tempo changes followed, inside the same pattern visit, by pattern delays (EEx after Fxx, S3M SEx after
+    Axx, IT S6x and row delay SEx after Axx / Txx): the delay must be counted at the *running* speed and tempo."""
+    nr = len(rows)
+    r0 = rng.randrange(0, nr - 3)
+    if nr > 8:
+        r0 = rng.randrange(0, min(nr - 3, 24))      # early, so that jumps further down rarely cut it off
+    s = rng.choice([1, 2, 3, 4, 5, 7, 8, 9, 12, 17, 31])
+    t = rng.choice([32, 40, 64, 100, 150, 200, 255])
+
+    def delay():
+        k = "r" if (fmt == "it" and rng.random() < 0.6) else "d"
+        return (k, rng.choice([1, 1, 2, 3, 5, 15]), rng.randrange(chn))
+    seq = rng.choice([
+        [("s", s, None), delay()],
+        [("s", s, None), delay(), ("t", t, None), delay()],
+        [("t", t, None), ("s", s, None), delay(), delay()],
+        [("s", s, None), ("s", rng.choice([1, 2, 3, 6, 11]), None), delay()],
+    ])
+    for i, ev in enumerate(seq):
+        if r0 + i >= nr:
+            break
+        if rows[r0 + i] is not None and rows[r0 + i][0] == "j":
+            break                                   # keep the flow graph as generated
+        rows[r0 + i] = (ev[0], ev[1], rng.randrange(chn) if ev[2] is None else ev[2])
+
+
+def gen_tour_mod(rng, fmt):
+    """Several sequences that never join (each group of orders ends with a jump to its own start), each changing
+    speed and tempo to values of its own: after a reposition from one to the other the speed / tempo recorded by the
+    scan for the target order must be restored."""
+    chn = {"mod": 4, "xm": rng.choice([2, 4]), "s3m": rng.choice([1, 4]), "it": rng.choice([1, 3])}[fmt]
+    nseq = rng.choice([2, 2, 3, 4])
+    speeds = rng.sample([1, 2, 3, 4, 5, 7, 8, 9, 11, 13], nseq)
+    tempos = rng.sample([32, 48, 64, 90, 110, 140, 180, 220, 255], nseq)
+    pats, orders = [], []
+    for g in range(nseq):
+        npg = rng.choice([1, 1, 2])
+        start = len(orders)
+        for q in range(npg):
+            nr = 64 if fmt in ("mod", "s3m") else rng.choice([4, 6, 8, 16, 32])
+            rows = [None] * nr
+            if q == 0:
+                a = rng.randrange(0, nr // 2)
+                rows[a] = ("s", speeds[g], rng.randrange(chn))
+                b = rng.randrange(a + 1, nr - 1)
+                rows[b] = ("t", tempos[g], rng.randrange(chn))
+                if b + 1 < nr - 1 and rng.random() < 0.6:
+                    k = "r" if (fmt == "it" and rng.random() < 0.5) else "d"
+                    rows[b + 1] = (k, rng.choice([1, 2, 3]), rng.randrange(chn))
+            if q == npg - 1:
+                rows[nr - 1] = ("j", start, rng.randrange(chn))
+            orders.append(len(pats))
+            pats.append(rows)
+    if fmt == "mod":
+        spd, bpm = 6, 125
+    else:
+        spd, bpm = rng.choice([3, 6, 6, 10]), rng.choice([80, 125, 125, 200])
+    return dict(fmt=fmt, chn=chn, orders=orders, pats=pats, rst=0, spd=spd, bpm=bpm,
+                magic="M.K." if fmt == "mod" else None, style="tour")
 
 
 def gen_long_mod(rng):
@@ -269,7 +342,7 @@ def write_s3m(d):
     return out, orders
 
 
-IT_CMD = {"s": 1, "j": 2, "d": 19, "t": 20}
+IT_CMD = {"s": 1, "j": 2, "d": 19, "r": 19, "t": 20}
 
 
 def write_it(d):
@@ -289,7 +362,7 @@ def write_it(d):
         for ev in rows:
             if ev is not None:
                 k, v, c = ev
-                prm = (0x60 | v) if k == "d" else v
+                prm = (0x60 | v) if k == "d" else (0xe0 | v) if k == "r" else v
                 data += bytes([(c + 1) | 0x80, 0x08, IT_CMD[k], prm])
             data += b"\0"
         blob = struct.pack("<HHI", len(data), len(rows), 0) + data
@@ -327,7 +400,7 @@ def parse_cases(text):
             cur["model_in"].append(line)
         elif line.startswith("oracle_fail"):
             cur["oracle"].append(line)
-        elif line.startswith(("note ", "aux ", "cap ", "loadfail")):
+        elif line.startswith(("note ", "aux ", "cap ", "loadfail", "tour ")):
             cur["notes"].append(line)
         elif line == "endcase":
             cur = None
@@ -524,6 +597,8 @@ def run(ck):
         fmt = FORMATS[i % 4]
         if fmt == "mod" and (i < 32 if quick else ck.rng.random() < 0.05):
             d = gen_long_mod(ck.rng)        # quick: 8 per run; thorough: ~5% of the MODs
+        elif i % 20 >= 16:
+            d = gen_tour_mod(ck.rng, fmt)   # 20%: sequences that never join, each with its own speed / tempo
         else:
             d = gen_module(ck.rng, fmt, big=(ck.rng.random() < 0.05))
         data, exp_orders = write_module(d)
@@ -546,7 +621,8 @@ def run(ck):
     bypath = {m[0]: m for m in mods}
     stats = dict(modules=0, sequences=0, multi_sequence_modules=0, frames=0, rows=0, capped=0, loadfail=0,
                  jumps_beyond_len=0, marker_orders=0, invalid_orders=0, restart_nonzero=0, one_row_patterns=0,
-                 nobpm=0, long_mods=0, long_mods_vblank_reading_won=0, long_mods_cia_reading_kept=0, long_mods_below_threshold=0, rejected_both=0, corpus_cases=0, oracle_failures=0, model_traces_agree=0, foreign_end=0, model_recs_agree=0, seqhyp_holds=0, seqhyp_fails=0, modwf_holds=0)
+                 nobpm=0, long_mods=0, long_mods_vblank_reading_won=0, long_mods_cia_reading_kept=0, long_mods_below_threshold=0, rejected_both=0, corpus_cases=0, oracle_failures=0, model_traces_agree=0, foreign_end=0, model_recs_agree=0, seqhyp_holds=0, seqhyp_fails=0, modwf_holds=0, rowdelay_modules=0,
+                 tour_modules=0, tour_visits=0, tour_visits_ok=0, speed_then_delay_modules=0)
     per_fmt = {f: 0 for f in FORMATS}
     for (rc, out, err), sh in zip(results, shards):
         cases = parse_cases(out)
@@ -632,6 +708,15 @@ def run(ck):
             stats["invalid_orders"] += 1 if any(o >= len(d["pats"]) + (1 if fmt == "xm" else 0) and o < 0xfe for o in exp_orders) else 0
             stats["restart_nonzero"] += 1 if c["model_in"][0].split()[2] != "0" else 0
             stats["one_row_patterns"] += 1 if any(len(r) == 1 for r in d["pats"]) else 0
+            def _sd(rows):
+                seen = False
+                for ev in rows:
+                    if ev and ev[0] in ("s", "t"):
+                        seen = True
+                    elif ev and ev[0] in ("d", "r") and ev[1] > 0 and seen:
+                        return True
+                return False
+            stats["speed_then_delay_modules"] += 1 if any(_sd(r) for r in d["pats"]) else 0
             nontriv = nseq > 1 or any(ev for rows in d["pats"] for ev in rows)
             ck.count(vlib.hash_str(data.hex()), nontrivial=nontriv)
             ck.sample({"file": os.path.basename(path), "fmt": fmt, "orders": exp_orders[:16], "rst": d["rst"],
@@ -650,22 +735,39 @@ def run(ck):
                     continue
             if mo is None:
                 continue
-            if any(l == "tracesagree true" for l in mo):
+            # IT row delay (SEx) is modelled in both interpreters and tied to the C by the correspondence below, but
+            # lies outside the class ModWF of the simulation theorems (the player enters the row 1 + x times, the scan
+            # records it once): the model-internal agreements are not claimed for such modules
+            has_r = any(":r:" in l for l in c["model_in"])
+            stats["rowdelay_modules"] += 1 if has_r else 0
+            for l in c["notes"]:
+                if l.startswith("tour "):
+                    f = l.split()
+                    stats["tour_visits"] += int(f[1])
+                    stats["tour_visits_ok"] += int(f[3])
+                    stats["tour_modules"] += 1
+            if has_r:
+                mo_chk = []
+            else:
+                mo_chk = mo
+            if any(l == "tracesagree true" for l in mo_chk):
                 stats["model_traces_agree"] += sum(1 for l in mo if l == "tracesagree true")
-            if any(l == "tracesagree false" for l in mo) and not capped and not excluded:
+            if any(l == "tracesagree false" for l in mo_chk) and not capped and not excluded:
                 ck.unproved("model: Scan.run and Play.run row traces differ", "%s (theorem C18_scan_eq_play contradicted?)" % os.path.basename(path))
-            if any(l == "recsagree false" for l in mo) and not capped and not excluded:
+            if any(l == "recsagree false" for l in mo_chk) and not capped and not excluded:
                 ck.unproved("model: Scan.run and Play.run row records (speed/tempo/delay/exact start time) differ",
                             "%s (theorem C18_scan_eq_play_seq contradicted?)" % os.path.basename(path))
-            stats["model_recs_agree"] += sum(1 for l in mo if l == "recsagree true")
-            if "modwf true" in mo:
+            stats["model_recs_agree"] += sum(1 for l in mo_chk if l == "recsagree true")
+            if has_r:
+                pass
+            elif "modwf true" in mo:
                 stats["modwf_holds"] += 1
             else:
                 ck.unproved("module class ModWF (hypothesis of C18_scan_eq_play) does not hold on a generated module",
                             os.path.basename(path))
             # the decidable hypotheses of C18_scan_eq_play_seq / C18_loop_count (seqHypB) must hold for every
             # sequence of every generated module, and the recorded pre-state must reproduce the sequence's scan
-            for l in mo:
+            for l in mo_chk:
                 if l.startswith("seqhyp "):
                     if l == "seqhyp true pre true":
                         stats["seqhyp_holds"] += 1
@@ -686,8 +788,9 @@ def run(ck):
         ck.note(k, v)
     ck.note("modules_per_format", per_fmt)
     ck.cov["rule"] = ("cases = random linear-flow modules (format, channels, order list incl. invalid entries / S3M-IT markers, pattern "
-                      "count and lengths incl. 1-row patterns, speed 1..31 / tempo 32..255 / delay 0..15 / jump 0..255 effects on random "
-                      "channels, restart position, initial speed and tempo; plus long Protracker M.K. MODs around the 8-minute CIA/VBlank "
+                      "count and lengths incl. 1-row patterns, speed 1..31 / tempo 32..255 / delay 0..15 (IT: S6x and row delay SEx) / jump 0..255 "
+                      "effects on random channels, speed / tempo changes followed by delays inside one pattern, restart position, initial speed "
+                      "and tempo; modules with several never-joining sequences of different speed / tempo for the reposition tour; plus long Protracker M.K. MODs around the 8-minute CIA/VBlank "
                       "comparison threshold of the scan, either reading winning) generated from VERIF_SEED and written as real files; distinct by "
                       "hash of the file; non-trivial = at least one flow effect or more than one sequence")
     ck.assumptions += [
